@@ -59,6 +59,11 @@ pub fn cmd_extone(a: &Args) {
         s.add_clause(vec![Literal::from(v as isize), Literal::from(-(v as isize + 1))]);
     }
     s.add_clause(vec![Literal::from(1)]);
+    // input volume: redundant clauses (about 9 bytes each) so that the instance exceeds the pipe capacity as well
+    let inkb = a.num("inkb", 0);
+    for _ in 0..(inkb * 1024 / 9) {
+        s.add_clause(vec![Literal::from(1), Literal::from(-2), Literal::from(3)]);
+    }
     let j = solve_json(&mut s);
     println!("{}", j);
 }
@@ -108,10 +113,16 @@ pub fn cmd_ext(a: &Args) {
         let me = std::env::current_exe().unwrap();
         lines.push(json!({"ev": "reset", "what": "volumes"}).to_string());
         let jobs: Vec<String> = vols.clone();
-        let res = util::par_map(jobs, threads.min(4), |mode| {
+        let res = util::par_map(jobs, threads.min(4), |mode_in| {
             let t0 = Instant::now();
+            // "<mode>@<KiB of input>"
+            let (mode, inkb) = match mode_in.split_once('@') {
+                Some((m, k)) => (m.to_string(), k.to_string()),
+                None => (mode_in.clone(), "0".to_string()),
+            };
+            let mode = &mode;
             let mut child = std::process::Command::new(&me)
-                .args(["extone", "--fakesat", &fakesat, "--mode", mode, "--nvars", if mode.starts_with("trunc:") { "31" } else { "6" }])
+                .args(["extone", "--fakesat", &fakesat, "--mode", mode, "--inkb", &inkb, "--nvars", if mode.starts_with("trunc:") { "31" } else { "6" }])
                 .stdout(std::process::Stdio::piped())
                 .stderr(std::process::Stdio::null())
                 .spawn()
@@ -139,7 +150,7 @@ pub fn cmd_ext(a: &Args) {
                 child.stdout.take().unwrap().read_to_string(&mut outp).unwrap();
             }
             let j: Value = serde_json::from_str(outp.trim()).unwrap_or(json!({"res": "none", "model": []}));
-            json!({"ev": "volume", "mode": mode, "finished": finished, "wall_ms": t0.elapsed().as_millis() as u64,
+            json!({"ev": "volume", "mode": mode, "inkb": inkb.parse::<u64>().unwrap_or(0), "finished": finished, "wall_ms": t0.elapsed().as_millis() as u64,
                    "res": j["res"], "model": j["model"]}).to_string()
         });
         lines.extend(res);
